@@ -350,6 +350,59 @@ def decide(rep, prog, cx=None):
         else:
             rep.check(fine or incomplete, 'R16.status', 'iteration', 'an iteration does not distinguish valid/complete (valid %s, complete %s)' % (v, c),
                       function='session_table_update_complete_status', file=fnf)
+    def counted_form(ac):
+        """'all complete' = (n == 0) where n counts the valid incomplete entries: a local that starts at 0, is left alone by every
+        iteration that knows its entry to be fine and is increased by every iteration that knows it to be valid and incomplete; the
+        scan has no early exit and covers every slot."""
+        t = ac
+        if t[0] == 'lnot':
+            return False
+        if t[0] != 'eq':
+            return False
+        a, b = t[1], t[2]
+        atom = a if b == ZERO else b if a == ZERO else None
+        if atom is None or atom[0] != 'sym' or not str(atom[1]).startswith('hv:%s:L:' % lid):
+            return False
+        oid = str(atom[1])[len('hv:%s:' % lid):].rsplit('+', 1)[0]
+        name = oid.split('.', 1)[1] if '.' in oid else None
+        fnode_ = cx.ix.functions['session_table_update_complete_status']
+        init0 = False
+        from ..facts import walk as _walk
+        for n_ in _walk(fnode_):
+            if n_.get('kind') == 'VarDecl' and n_.get('name') == name and n_.get('inner'):
+                e_ = n_['inner'][-1]
+                while e_.get('kind') in ('ImplicitCastExpr', 'ParenExpr', 'CStyleCastExpr') and e_.get('inner'):
+                    e_ = e_['inner'][0]
+                init0 = e_.get('kind') == 'IntegerLiteral' and e_.get('value') in ('0', 0)
+        if not init0:
+            return False
+        states = I.loop_info[lid]['iter_states'] or []
+        if any(kind in ('break', 'return') for kind, _t, _s in states):
+            return False
+        seen_inc = False
+        for kind, _t, s2 in states:
+            o2 = s2.objs.get(oid)
+            cell = o2.cells.get(((), 0)) if o2 is not None else None
+            if cell is None:
+                return False
+            d_ = lin_of(s2.canon(cell[1])).add(lin_of(s2.canon(atom)), -1)
+            v_ = s2.dom(cx.field(s2, base, 'valid', 1))
+            c_ = s2.dom(cx.field(s2, base, 'complete', 1))
+            if not d_.is_const():
+                return False
+            if d_.k == 0:
+                if not (v_.hi == 0 or c_.lo >= 1):
+                    return False
+            elif 1 <= d_.k <= 255:
+                if not (v_.lo >= 1 and c_.hi == 0):
+                    return False
+                seen_inc = True
+            else:
+                return False
+        # the loop covers every slot (no slot is skipped): the index runs to the capacity
+        covers = all(st_.dom(k).lo >= cx.cap for st_, _v in outs)
+        return seen_inc and covers
+
     for st, v in outs:
         ac = cx.tfield(st, 'all_complete')
         kd = st.dom(k)
@@ -362,6 +415,8 @@ def decide(rep, prog, cx=None):
         elif ac == ONE:
             rep.check(kd.lo >= cx.cap, 'R16.status', 'true-needs-full-scan', "'all complete' is set true after scanning only up to index %s" % kd,
                       function='session_table_update_complete_status', file=fnf, sample={'all_complete': 1, 'scanned_to': repr(kd)})
+        elif counted_form(ac):
+            rep.ok('R16.status', sample={'all_complete': 'no pending entry counted', 'counter': short(ac)})
         else:
             rep.fail('R16.status', 'non-constant', "'all complete' becomes %s" % short(ac), function='session_table_update_complete_status', file=fnf)
 
